@@ -224,7 +224,7 @@ func genInto(r *common.Rng, v reflect.Value, name string, depth int) {
 		v.Set(reflect.ValueOf(GenCid(r, undef)))
 		return
 	case TPeer:
-		if r.Chance(1, 12) {
+		if !Clean && r.Chance(1, 20) {
 			return // empty peer ID
 		}
 		v.Set(reflect.ValueOf(common.PeerN(r.Intn(NPeers))))
@@ -285,7 +285,10 @@ func genInto(r *common.Rng, v reflect.Value, name string, depth int) {
 		}
 		s := reflect.MakeSlice(t, n, n)
 		for i := 0; i < n; i++ {
-			if t.Elem() == TPeer { // no empty peer IDs inside lists
+			if t.Elem() == TPeer { // the empty peer ID inside a list: a boundary value, kept rare
+				if !Clean && r.Chance(1, 25) {
+					continue
+				}
 				s.Index(i).Set(reflect.ValueOf(common.PeerN(r.Intn(NPeers))))
 			} else {
 				genInto(r, s.Index(i), name, depth+1)
@@ -313,6 +316,10 @@ func genInto(r *common.Rng, v reflect.Value, name string, depth int) {
 			}
 			ev := reflect.New(t.Elem()).Elem()
 			if t.Elem().Kind() == reflect.Ptr {
+				if !Clean && r.Chance(1, 20) { // a nil pointer as map value
+					m.SetMapIndex(reflect.ValueOf(k).Convert(t.Key()), ev)
+					continue
+				}
 				ev.Set(reflect.New(t.Elem().Elem()))
 				genInto(r, ev.Elem(), name, depth+1)
 			} else if t.Elem() == reflect.TypeOf("") {
@@ -336,7 +343,10 @@ func genInto(r *common.Rng, v reflect.Value, name string, depth int) {
 		}
 		p := reflect.New(t.Elem())
 		if t.Elem() == TCid {
-			p.Elem().Set(reflect.ValueOf(common.CidN(r.Intn(NCids))))
+			// a non-nil pointer to cid.Undef (what the first shard pin of a sharded add carried) for some
+			if Clean || !r.Chance(1, 10) {
+				p.Elem().Set(reflect.ValueOf(common.CidN(r.Intn(NCids))))
+			}
 		} else {
 			genInto(r, p.Elem(), name, depth+1)
 		}
